@@ -30,6 +30,8 @@ by their documented length contracts:
   S8  reduce_processors_until_under_quota (the cut take_all applies): without a limit the vector is
       returned unchanged; with a limit, one inductive step of the pop loop from an arbitrary length
       (removes exactly one while len > limit, leaves with len <= limit, no panic).
+  S9  take_all: on every path, for all five policies, the returned set is built from the result of the
+      quota cut applied to the arm's vector (path property over the whole loop-free MIR of take_all).
   S6  policy PreferSame, the region sort key closure returns min(candidates in the region, n) (regions
       that can satisfy the request alone are visited first: "as few regions as possible").
 
@@ -775,6 +777,45 @@ def s8_quota_cut(funcs, out):
     return viol
 
 
+def s9_take_all_applies_cut(funcs, out):
+    """take_all: on EVERY path (all five region policies) the vector handed to NonEmpty::from_vec - and so
+    the returned set - is the result of reduce_processors_until_under_quota applied to the arm's vector.
+    A path property over the whole (loop-free) MIR of take_all; callees are opaque."""
+    c = [f for k, f in funcs.items() if re.search(r"processor_set_builder.*>::take_all$", k)]
+    if len(c) != 1:
+        raise S.Unsupported("take_all not found exactly once (%d)" % len(c))
+    fn = c[0]
+    ex = S.SymExec(funcs, (), {}, lenient=True)
+    paths = ex.run(fn, "bb0", {"_1": ("OPAQUE", "self")}, stop=())
+    viol = []
+    n_some = 0
+    arms = set()
+    for pa in paths:
+        if pa.outcome[0] != "RETURN":
+            continue                         # expect() arms of the opaque Option results, unreachable selector values
+        calls = [e for e in pa.events if e[0] == "call"]
+        news = [e for e in calls if re.search(r"ProcessorSet::new$", e[1])]
+        if not news:
+            continue                         # returned None before building a set
+        r, m, s = check(pa.pc)
+        if r != z3.sat:
+            continue
+        n_some += 1
+        cuts = [e for e in calls if re.search(r"::reduce_processors_until_under_quota$", e[1])]
+        fromvec = [e for e in calls if re.search(r"NonEmpty::<.*>::from_vec$", e[1])]
+        ok = len(cuts) == 1 and len(fromvec) == 1 and fromvec[0][2][0] == cuts[0][3]
+        # which arm: the callee that produced the vector given to the cut (collect / clone)
+        src = cuts[0][2][1] if cuts else None
+        arms.add(str(src)[:60])
+        out["queries"].append(dict(q="S9 take_all path %d: set built from the quota-cut vector (cut input %s)" % (n_some, str(src)[:50]), result="unsat" if ok else "sat", s=s))
+        if not ok:
+            viol.append(dict(label="take_all builds its result without applying the quota cut on some path (calls: %s)" % [re.sub(r"<.*", "", e[1].split("::")[-1]) for e in calls][-6:],
+                             line=None, policy="quota_cut", assignment=dict(count=1, limit=2, processors_len=4)))
+    out["witness"].append(dict(q="S9 saw %d set-building paths over %d distinct arm vectors" % (n_some, len(arms)), ok=n_some >= 3 and len(arms) >= 3))
+    out["functions"].append("ProcessorSetBuilder::take_all (whole MIR, %d blocks, %d paths, callees opaque)" % (len(fn.blocks), len(paths)))
+    return viol
+
+
 def replay(v, repo):
     nd = os.path.join(M.VERIF, "native", "selection_replay")
     cache = os.environ.get("FOLO_VERIF_CACHE") or os.path.join(M.VERIF, ".cache")
@@ -842,7 +883,7 @@ def replay(v, repo):
 
 
 OUTSIDE = [
-    "everything but cardinality: membership in the source set, filters / exclusions / efficiency classes, distinctness, the region constraints themselves (which regions the chosen processors come from), how take_all builds its set per policy and that it applies the quota cut on every arm, the float quota -> floor(max_processor_time).max(1) conversion; in RequireDifferent the per-region closure (one processor per chosen region) is assumed to yield one element",
+    "everything but cardinality: membership in the source set, filters / exclusions / efficiency classes, distinctness, the region constraints themselves (which regions the chosen processors come from), which processors take_all selects per policy, the float quota -> floor(max_processor_time).max(1) conversion; in RequireDifferent the per-region closure (one processor per chosen region) is assumed to yield one element",
     "the containers and the random sampling themselves (abstracted to their documented length contracts, listed in the evidence assumptions)",
     "more than 2^32 processors / regions (lengths are assumed <= 2^32 so that usize sums cannot wrap)",
 ]
@@ -883,7 +924,8 @@ def main():
     for name, q in (("s1_any", lambda: s1_any(fn, funcs, out)), ("s2_prefer_same", lambda: s2_prefer_same(fn, funcs, out)), ("s3_require_same_filter", lambda: s3_require_same_filter(funcs, out)),
                     ("s4_prefer_different", lambda: s4_prefer_different(fn, funcs, out)), ("s5_require_different", lambda: s5_require_different(fn, funcs, out)),
                     ("s6_prefer_same_sort_key", lambda: s6_prefer_same_sort_key(funcs, out)),
-                    ("s7_quota_guard", lambda: s7_quota_guard(fn, funcs, out)), ("s8_quota_cut", lambda: s8_quota_cut(funcs, out))):
+                    ("s7_quota_guard", lambda: s7_quota_guard(fn, funcs, out)), ("s8_quota_cut", lambda: s8_quota_cut(funcs, out)),
+                    ("s9_take_all_applies_cut", lambda: s9_take_all_applies_cut(funcs, out))):
         try:
             viol += q()
         except (S.Unsupported, KeyError, IndexError, AttributeError) as e:
